@@ -46,7 +46,7 @@ opkinds! {
     NthBack = 23, "NthBack";
     Len = 24, "Len";
     SizeHint = 25, "SizeHint";
-    Observe = 26, "Observe";           // a = 0 Debug, 1 Hash, 2 Eq(self), 3 Eq(twin), 4 Ne(twin), 5 Debug alternate ({:#?}); f = observe-panic k, b = sink failure (a = 0, 5) / hasher panic (a = 1) at write b
+    Observe = 26, "Observe";           // a = 0 Debug, 1 Hash, 2 Eq(self), 3 Eq(twin), 4 Ne(twin), 5 Debug alternate ({:#?}), 6 Debug with width/fill/alignment/sign/precision flags; f = observe-panic k, b = sink failure (a = 0, 5) / hasher panic (a = 1) at write b
     TakeCount = 27, "TakeCount";       // it.by_ref().take(a).count(); f = drop-panic k
     RevTakeDrop = 28, "RevTakeDrop";   // it.by_ref().rev().take(a).for_each(drop); f = drop-panic k
     BagDrop = 29, "BagDrop";           // caller destroys a previously yielded element
@@ -85,8 +85,9 @@ opkinds! {
     MSliceReplace = 71, "MSliceReplace";
     MIndex = 72, "MIndex";             // m[(i,j)], b = i | j<<8 ; a bit0 = replace through IndexMut
     MTakeLines = 73, "MTakeLines";     // M -> its public `rows` / `cols` vector-of-vectors (then vector ops apply)
-    MMapRows = 74, "MMapRows";         // map_rows / map_cols with an identity closure that may panic (f)
+    MMapRows = 74, "MMapRows";         // a % 3: 0 map_rows / map_cols | 1 map | 2 map2 (second operand destroyed by the closure); identity closure that may panic (f)
     MClone = 76, "MClone";             // let c = m.clone(); drop(c); f = panic in the f-th element clone
+    MDiagonal = 78, "MDiagonal";       // m.diagonal(): the diagonal elements in order, everything else destroyed once; terminal
     MShrink = 77, "MShrink";           // truncating conversion to a smaller matrix type (a = which), result checked and dropped; terminal
     MObserve = 75, "MObserve";         // a = Debug|Hash|Eq|Display on the matrix, f = observe-panic k
 }
